@@ -533,6 +533,29 @@ pub fn query<A: HC>(q: &str, t: &mut Toks) -> R<String> {
             };
             let val: serde_json::Value = serde_json::from_str(&js).map_err(|e| Fail::BadOp(e.to_string()))?;
             let bv = &val["bv"];
+            // The serialised *format* is not part of the property (only the round trip is). When the JSON has bitvec's
+            // field shape, the fields are shown (a shifted head / short data is then visible); when it has any other
+            // shape, the line shows what those fields would be for the value itself, so a different but lossless format
+            // does not raise an alarm.
+            let shaped = bv.is_object() && bv["bits"].is_u64() && bv["head"]["index"].is_u64() && bv["data"].is_array();
+            if !shaped {
+                let nbits = v.len() * A::BITS as usize;
+                let raw = v.into_raw();
+                let nwords = (nbits + 63) / 64;
+                let mut ws: Vec<String> = vec![];
+                for (i, w) in raw.iter().enumerate().take(nwords) {
+                    let live = if (i + 1) * 64 <= nbits { 64 } else { nbits - i * 64 };
+                    ws.push((if live == 64 { *w } else { *w & ((1usize << live) - 1) }).to_string());
+                }
+                return Ok(format!(
+                    "{} {} {} bitvec::order::Lsb0 64 0 {} {}",
+                    show(&v),
+                    same(&v2),
+                    same(&v3),
+                    nbits,
+                    if ws.is_empty() { "-".to_string() } else { ws.join(",") }
+                ));
+            }
             let bits = bv["bits"].as_u64().unwrap_or(u64::MAX) as usize;
             let head = bv["head"]["index"].as_u64().unwrap_or(u64::MAX) as usize;
             let mut words: Vec<String> = vec![];
